@@ -72,32 +72,32 @@ Definition emitted_idiv_helper (guard_first : bool) (m : cmode) (t : ity) (check
 Definition emitted_imod_helper (guard_first : bool) (m : cmode) (t : ity) (checked : bool) (a b : Z) : outcome :=
   if guard_first || checked then h_imod m t checked a b else h_imod_rest m t false a b.
 
-(* nelua_shl_T(T a, stype b)
+(* nelua_shl_T(T a, int64 b)     (the count is no longer narrowed to the type of a: /repo 2cffa35)
      if(b >= 0 && b < bitsize) return ((utype)a) << b;
      else if(b < 0 && b > -bitsize) return (utype)a >> -b;
      else return 0;                                                                        *)
 Definition h_shl (m : cmode) (t : ity) (a b : Z) : outcome :=
-  let A : cval := (t, a) in let B : cval := (to_signed t, b) in
+  let A : cval := (t, a) in let B : cval := (I64, b) in
   let UA := c_cast (to_unsigned t) A in
   if (0 <=? b) && (b <? ibits t) then ret t (c_shl m UA B)
   else if (b <? 0) && (- ibits t <? b) then ret t (nb <- c_neg m B ;; c_shr UA nb)
   else ret t (Some (lit 0)).
 
-(* nelua_shr_T(T a, stype b): the mirror image *)
+(* nelua_shr_T(T a, int64 b): the mirror image *)
 Definition h_shr (m : cmode) (t : ity) (a b : Z) : outcome :=
-  let A : cval := (t, a) in let B : cval := (to_signed t, b) in
+  let A : cval := (t, a) in let B : cval := (I64, b) in
   let UA := c_cast (to_unsigned t) A in
   if (0 <=? b) && (b <? ibits t) then ret t (c_shr UA B)
   else if (b <? 0) && (- ibits t <? b) then ret t (nb <- c_neg m B ;; c_shl m UA nb)
   else ret t (Some (lit 0)).
 
-(* nelua_asr_T(T a, stype b)
+(* nelua_asr_T(T a, int64 b)
      if(b >= 0 && b < bitsize) return a >> b;
      else if(b >= bitsize) return a < 0 ? -1 : 0;
      else if(b < 0 && b > -bitsize) return a << -b;
      else return 0;                                                                        *)
 Definition h_asr (m : cmode) (t : ity) (a b : Z) : outcome :=
-  let A : cval := (t, a) in let B : cval := (to_signed t, b) in
+  let A : cval := (t, a) in let B : cval := (I64, b) in
   if (0 <=? b) && (b <? ibits t) then ret t (c_shr A B)
   else if ibits t <=? b then ret t (Some (lit (if a <? 0 then -1 else 0)))
   else if (b <? 0) && (- ibits t <? b) then ret t (nb <- c_neg m B ;; c_shl m A nb)
